@@ -14,7 +14,8 @@ import re
 from harness import common, models, gen
 from harness.common import timed, Timeout
 
-THEOREMS = ['C02_configure_interpret', 'C02_wf_interpret_ok', 'C02_nonvacuous']
+THEOREMS = ['C02_configure_interpret', 'C02_wf_interpret_ok', 'C02_interpret_is_entries', 'C02_single_pass',
+            'C02_build_reads_back', 'C02_nonvacuous']
 
 ALN_NF = re.compile(r'~([A-Za-z]\.?)?(0|[1-9][0-9]*)(,(0|[1-9][0-9]*))*\Z')
 ASCII = re.compile(r'[\x00-\x7f]*\Z')
@@ -417,7 +418,7 @@ EXC_CODE = {5: 'SurfaceError', 2: 'LayoutError'}
 
 def run(chk):
     chk.rule = ('trees built with fresh variables per node: (1) every tree with <=3 nodes, <=3 non-concept branches per node '
-                '(total <=3 quick / <=4 thorough), roles {:ARG0,:ARG0-of,:mod}, atoms {x, any variable of the tree, None}, with '
+                '(all with <=3 in total; thorough adds a 15% sample of those with 4), roles {:ARG0,:ARG0-of,:mod}, atoms {x, any variable of the tree, None}, with '
                 'and without concepts; (2) random deep/wide trees (depth<=60 quick, <=200 thorough; width<=30) over 21 roles '
                 '(inverted, doubly inverted, model-defined -of roles), alignments on role/concept/target, empty concept slots, '
                 'concept-less nodes with edges, re-entrancies, cycles, concepts equal to variables, metadata; (3) hand-written '
@@ -444,10 +445,16 @@ def run(chk):
     trees = []          # (kind, node, meta)
     for label, node in HAND:
         trees.append(('hand:' + label, node, {}))
-    small = list(small_wf_trees([':ARG0', ':ARG0-of', ':mod'], 3, 3, 3 if quick else 4))
+    small = list(small_wf_trees([':ARG0', ':ARG0-of', ':mod'], 3, 3, 3))
+    chk.stat('small_trees_enumerated(all, <=3 branches)', len(small))
+    if not quick:
+        # four branches in total: 513k trees; a seeded 15% sample of them
+        have = set(map(repr, small))
+        extra = [n for n in small_wf_trees([':ARG0', ':ARG0-of', ':mod'], 3, 3, 4) if rng.random() < .15 and repr(n) not in have]
+        chk.stat('small_trees_sampled(4 branches)', len(extra))
+        small += extra
     for node in small:
         trees.append(('small', node, {}))
-    chk.stat('small_trees_enumerated', len(small))
     shapes_seen = {}
     nrandom = 2500 if quick else 40000
     for i in range(nrandom):
@@ -481,9 +488,12 @@ def run(chk):
 
     cases = []
     for kind, node, meta in trees:
-        if kind in ('random', 'small'):
+        if kind == 'random':
             # under the four named models, plus one random table
             use = tables[:4] + [rng.choice(tables[4:])] if len(tables) > 4 else tables
+        elif kind == 'small':
+            # default, no-op, one of {AMR, mini-AMR}, one random table
+            use = [tables[0], tables[2], rng.choice([tables[1], tables[3]])] + ([rng.choice(tables[4:])] if len(tables) > 4 else [])
         else:
             use = tables
         for name, tbl, live in use:
@@ -499,8 +509,7 @@ def run(chk):
     for _, (name, tbl, live, node, meta, _) in cases:
         from penman.tree import Tree
         wt = common.e_tree(Tree(node, metadata=meta))
-        requests.append([1, wires[name], wt])
-        requests.append([2, wires[name], wt])
+        requests.append([11, wires[name], wt])
     t0 = time.time()
     model_out = common.run_driver('layout', requests)
     chk.corr_cases = len(requests)
@@ -508,8 +517,8 @@ def run(chk):
 
     for i, ((kind, (name, tbl, live, node, meta, do_text)), res) in enumerate(zip(cases, results)):
         case = {'model': name, 'table': tbl if not live else 'penman.models.amr', 'tree': node, 'metadata': meta, 'kind': kind}
-        coq_wf = bool(model_out[2 * i])
-        coq_rt = model_out[2 * i + 1]
+        coq_wf = bool(model_out[i][0])
+        coq_rt = model_out[i][1]
         chk.stat('models:' + (name if not name.startswith('random') else 'random-table'))
         # ---- twin vs Coq predicate ---------------------------------------------------
         if coq_wf != res['wf']:
